@@ -10,6 +10,9 @@ mod suites;
 
 use std::io::Write;
 
+/// Progress counter for the watchdog: incremented by every emitted case.
+pub static PROGRESS: std::sync::atomic::AtomicU64 = std::sync::atomic::AtomicU64::new(0);
+
 pub struct Ctx {
     pub tier: String,
     pub seed: u64,
@@ -25,7 +28,11 @@ impl Ctx {
     }
     pub fn emit(&mut self, suite: &str, args: &[&str], observed: &str) {
         self.count += 1;
+        PROGRESS.fetch_add(1, std::sync::atomic::Ordering::SeqCst);
         let _ = writeln!(self.out, "{}\t{}\t=>\t{}", suite, args.join("\t"), observed);
+        if self.count % 256 == 0 {
+            let _ = self.out.flush();
+        }
     }
     pub fn thorough(&self) -> bool {
         self.tier == "thorough"
@@ -67,6 +74,21 @@ fn main() {
         ),
         count: 0,
     };
+    // Watchdog: a case that makes no progress for 40 s (a call into the library that blocks or loops)
+    // ends the run with exit code 3; what was emitted so far has been flushed by then.
+    std::thread::spawn(|| {
+        let mut last = 0;
+        let mut idle = 0;
+        loop {
+            std::thread::sleep(std::time::Duration::from_secs(2));
+            let now = PROGRESS.load(std::sync::atomic::Ordering::SeqCst);
+            if now == last { idle += 1; } else { idle = 0; last = now; }
+            if idle >= 20 {
+                eprintln!("WATCHDOG: no progress for 40 s after case #{now}: a call into the library blocked or looped");
+                std::process::exit(3);
+            }
+        }
+    });
     if ctx.tier == "replay" {
         // Re-run the implementation on the input part of each line of the replay file.
         let path = args.get(6).expect("replay file");
